@@ -58,6 +58,23 @@ def _cpu_seconds_tree(pid):
     return total
 
 
+AMBIENT = [
+    {},
+    {"LANG": "C"},
+    {"LANG": "en_US.UTF-8", "TERM": "xterm-256color", "COLUMNS": "40"},
+    {"LANG": "ja_JP.UTF-8", "LC_ALL": "ja_JP.UTF-8", "LANGUAGE": "ja"},
+    {"LANG": "tr_TR.UTF-8", "LC_ALL": "tr_TR.UTF-8", "TZ": "Asia/Kolkata"},
+    {"LANG": "zh_CN.UTF-8", "LC_CTYPE": "zh_CN.UTF-8", "TERM": "dumb", "NO_COLOR": "1"},
+    {"LC_ALL": "POSIX", "CLICOLOR_FORCE": "1", "RUST_LOG": "trace", "HOME": "/nonexistent"},
+    {"LANG": "de_DE.ISO-8859-1", "LC_NUMERIC": "de_DE", "USER": "root", "SHELL": "/bin/sh", "COLUMNS": "300"},
+]
+
+
+def ambient_env(n):
+    """One of a few legal ambient environments (locale, terminal, home, ...). No property may depend on them."""
+    return dict(AMBIENT[n % len(AMBIENT)])
+
+
 def _rss_gb(pid):
     try:
         with open("/proc/%d/status" % pid) as f:
@@ -299,6 +316,8 @@ class Cli:
                     a = a.replace("@FILE:%s@" % name, pth)
                 argv.append(a)
             env = {"PATH": "/usr/bin:/bin", "RUST_BACKTRACE": "0", "HOME": d}
+            # ambient environment chosen from the command line itself (so a replay reproduces it)
+            env.update(ambient_env(int(hashlib.sha256(repr(spec.get("argv")).encode()).hexdigest()[:6], 16)))
             env.update(self.extra_env)
             for k, v in (spec.get("env") or {}).items():
                 env[k] = v
